@@ -546,6 +546,18 @@ carquet_column_reader_t* carquet_reader_get_column(
     int32_t schema_idx = reader->schema->leaf_indices[column_index];
     const parquet_schema_element_t* schema_elem = &reader->schema->elements[schema_idx];
 
+    /* The chunk must store the physical type the schema declares: callers size
+     * their value buffers from the schema, the decoders write the chunk's type */
+    if (!schema_elem->has_type || col_reader->col_meta->type != schema_elem->type) {
+        int chunk_type = (int)col_reader->col_meta->type;
+        free(col_reader);
+        CARQUET_SET_ERROR(error, CARQUET_ERROR_TYPE_MISMATCH,
+            "Column %d: chunk type %d does not match schema type %d",
+            column_index, chunk_type,
+            schema_elem->has_type ? (int)schema_elem->type : -1);
+        return NULL;
+    }
+
     col_reader->max_def_level = reader->schema->max_def_levels[column_index];
     col_reader->max_rep_level = reader->schema->max_rep_levels[column_index];
     col_reader->type = col_reader->col_meta->type;
